@@ -268,6 +268,17 @@ def run(ck):
     for ok, matcher, rule, v, why in ha:
         ck.ob('R-VARS-handle', '%s/%s' % (rule, v), ok, ck.site(matcher), why, sample={'matcher': matcher, 'vertex': v})
     ck.floor('R-VARS-handle', len(ha), 6)
+    # the inline matcher of fuse_gadgets: the hub's phase is constrained (zero), so its parity must be absent
+    from .C01 import fuse_gadgets_point, CENTRE
+    ds, _cx = fuse_gadgets_point(facts)
+    if not ds:
+        ck.violation('R-VARS-handle', 'simplify::fuse_gadgets/centre', ck.site('simplify::fuse_gadgets'), 'anchor-missing: gadget record point not found')
+    else:
+        closed = [closure_lits(d) for d in ds]
+        ph = all(any(pol and a[0] == 'phase' and a[1] == CENTRE for (pol, a) in fs) for fs in closed)
+        ab = all((True, ('vars_empty', CENTRE)) in fs for fs in closed)
+        ck.ob('R-VARS-handle', 'simplify::fuse_gadgets/centre', (not ph) or ab, ck.site('simplify::fuse_gadgets'),
+              'fuse_gadgets constrains the phase of a gadget hub but does not require its parity to be absent: a hub with an odd parity is a pi hub, which negates the gadget angle')
     # D4
     P = 'params::Parity'
     for ctor, rec, other in (('params::Parity::one', 'params::Parity::is_one', ([0], False)), ('<params::Parity as num::Zero>::zero', '<params::Parity as num::Zero>::is_zero', ([], True))):
